@@ -14,7 +14,7 @@ use crate::Ctx;
 use mdv_core::mdparse::{Dump, NormOpts};
 use mdv_core::{json, Report, Value};
 
-const CHANGES: [&str; 9] = ["none", "add-thread", "exit-thread", "rewrite-app-region", "aborted-dump-first", "reconfigure-app-memory", "reconfigure-crash-context", "reconfigure-user-mappings", "reconfigure-principal-mapping"];
+const CHANGES: [&str; 10] = ["none", "add-thread", "exit-thread", "rewrite-app-region", "aborted-dump-first", "reconfigure-app-memory", "reconfigure-crash-context", "reconfigure-user-mappings", "reconfigure-principal-mapping", "retarget-to-another-process"];
 const OPTSETS: [&str; 7] = ["plain", "crash-context", "app-memory", "skip-unreferenced", "size-limit", "all", "blamed-thread-that-may-exit"];
 
 fn opts(set: usize, b: &Built, env: &Env) -> DumpOpts {
@@ -143,6 +143,17 @@ fn run_history(set: usize, hist: &[usize]) -> Res {
                 reused.skip_stacks_if_mapping_unreferenced();
                 reused.set_principal_mapping_address(t.page as usize + 16);
             }
+            9 => {
+                // the caller points the same writer at another process (public fields): only for the
+                // option sets whose configuration does not hold addresses of the first target
+                if set == 0 || set == 4 {
+                    let b2 = build(&shape);
+                    reused.process_id = b2.p.pid;
+                    reused.blamed_thread = b2.p.pid;
+                    b = b2;
+                    o.blamed = None;
+                }
+            }
             _ => {}
         }
         b.p.quiesce();
@@ -214,6 +225,9 @@ pub fn run(ctx: &Ctx, rep: &mut Report) {
                 for c in 0..CHANGES.len() {
                     // quick tier: at most one re-configuration step per history (thorough: any)
                     if !ctx.tier.is_thorough() && c >= 5 && h.iter().any(|x| *x >= 5) {
+                        continue;
+                    }
+                    if c == 9 && !(set == 0 || set == 4) {
                         continue;
                     }
                     let mut h2 = h.clone();
